@@ -29,7 +29,10 @@ type Actor struct {
 	// Used to make a window atomic in which a sarama goroutine that owns a multi-way select is
 	// blocked mid-body (two senders queueing on that select would be resolved by Go's random
 	// select order, which the controller cannot own).
-	Urgent   bool
+	Urgent bool
+	// Last actors come after everything else, postponed actors included: they are the default only when
+	// nothing else can happen (an environment change that "happens once the system has settled").
+	Last     bool
 	Variants []Variant
 }
 
@@ -65,6 +68,8 @@ type Ctl struct {
 	AutoRelease func(site string) bool
 	// OnPark is called (on the parking goroutine) when a gate that is a decision point is reached.
 	OnPark func(site, label string)
+	// OnHit is called (on the goroutine passing the gate) for every gate hit, parked or not.
+	OnHit func(site, topic string, n int32)
 	// GateRank gives the default priority class of a parked gate (default 0).
 	GateRank func(site string) int
 	// Providers return further enabled actors (answers, application operations, ticks, closes).
@@ -104,6 +109,9 @@ func goid() uint64 {
 
 // Gate is installed as sarama.VerifGateFn for the duration of one execution.
 func (c *Ctl) Gate(site, topic string, n int32) {
+	if c.OnHit != nil {
+		c.OnHit(site, topic, n)
+	}
 	c.mu.Lock()
 	c.SiteHits[site]++
 	if c.dead || (c.AutoRelease != nil && c.AutoRelease(site)) {
@@ -211,6 +219,9 @@ func (c *Ctl) enabled() []Actor {
 		acts = u
 	}
 	sort.SliceStable(acts, func(i, j int) bool {
+		if acts[i].Last != acts[j].Last {
+			return !acts[i].Last
+		}
 		pi, pj := c.postponed[acts[i].Label], c.postponed[acts[j].Label]
 		if pi != pj {
 			return !pi
